@@ -151,6 +151,10 @@ fn first_target_failure(res: &CaseResult, target: &str, known: &Known) -> Option
 /// structure-aware shrinking of a failing case: delete operations, shorten payloads, lower
 /// numbers and geometry, while the same property still fails
 pub fn shrink_case(case: &Case, run: &RunFn, target: &str, known: &Known) -> (Case, Failure) {
+    shrink_case_budget(case, run, target, known, 4000)
+}
+
+pub fn shrink_case_budget(case: &Case, run: &RunFn, target: &str, known: &Known, budget: usize) -> (Case, Failure) {
     let mut best = case.clone();
     let mut best_f = match first_target_failure(&run(&best), target, known) {
         Some(f) => f,
@@ -168,7 +172,7 @@ pub fn shrink_case(case: &Case, run: &RunFn, target: &str, known: &Known) -> (Ca
             )
         }
     };
-    let mut budget = 4000usize;
+    let mut budget = budget;
     let try_case = |c: &Case, budget: &mut usize| -> Option<Failure> {
         if *budget == 0 {
             return None;
@@ -494,6 +498,20 @@ pub fn fork_workers(
     track_current: bool,
     f: &(dyn Fn(usize) -> Vec<AccOut> + Sync),
 ) -> Vec<WorkerEnd> {
+    fork_workers_opt(n, cpu_limit_s, wall_limit_s, track_current, 10_000, false, f)
+}
+
+/// `stall_ms`: no CPU progress for this long means blocked for good; `kill_on_crash`: once one
+/// worker died abnormally the others are stopped (the search ends at the first failure anyway)
+pub fn fork_workers_opt(
+    n: usize,
+    cpu_limit_s: u64,
+    wall_limit_s: u64,
+    track_current: bool,
+    stall_ms: u64,
+    kill_on_crash: bool,
+    f: &(dyn Fn(usize) -> Vec<AccOut> + Sync),
+) -> Vec<WorkerEnd> {
     let dir = tmp_dir();
     let tag = format!("{}-{}", std::process::id(), {
         static N: AtomicUsize = AtomicUsize::new(0);
@@ -528,38 +546,109 @@ pub fn fork_workers(
         pids.push((w, pid, out_path, cur_path));
     }
     let t0 = Instant::now();
-    let mut ends = Vec::new();
-    for (w, pid, out_path, cur_path) in pids {
-        let mut status: i32 = 0;
-        let mut timed_out = false;
-        loop {
-            let r = unsafe { libc::waitpid(pid, &mut status, libc::WNOHANG) };
-            if r == pid {
-                break;
+    // poll all children: exit status, wall-clock watchdog, and stall detection (a worker is
+    // CPU-bound by construction, so no CPU progress for STALL_S seconds means it is blocked
+    // for good - e.g. a self-deadlock on a mutex inside the code under test)
+    struct Live {
+        w: usize,
+        pid: i32,
+        out_path: String,
+        cur_path: String,
+        status: i32,
+        done: bool,
+        timed_out: bool,
+        stalled: bool,
+        collateral: bool,
+        last_cpu: u64,
+        last_change: Instant,
+    }
+    let mut live: Vec<Live> = pids
+        .into_iter()
+        .map(|(w, pid, out_path, cur_path)| Live { w, pid, out_path, cur_path, status: 0, done: false, timed_out: false, stalled: false, collateral: false, last_cpu: 0, last_change: Instant::now() })
+        .collect();
+    let cpu_ticks = |pid: i32| -> Option<u64> {
+        let t = std::fs::read_to_string(format!("/proc/{}/stat", pid)).ok()?;
+        let rest = &t[t.rfind(')')? + 2..];
+        let f: Vec<&str> = rest.split_whitespace().collect();
+        Some(f.get(11)?.parse::<u64>().ok()? + f.get(12)?.parse::<u64>().ok()?)
+    };
+    let mut polls = 0u64;
+    let poll_every = (stall_ms / 50).clamp(1, 20);
+    let mut crash_seen = false;
+    while live.iter().any(|l| !l.done) {
+        polls += 1;
+        if kill_on_crash && crash_seen {
+            for l in live.iter_mut().filter(|l| !l.done) {
+                let mut status: i32 = 0;
+                unsafe {
+                    libc::kill(l.pid, libc::SIGKILL);
+                    libc::waitpid(l.pid, &mut status, 0);
+                }
+                l.status = status;
+                l.done = true;
+                l.collateral = true;
+            }
+            break;
+        }
+        for l in live.iter_mut().filter(|l| !l.done) {
+            let mut status: i32 = 0;
+            let r = unsafe { libc::waitpid(l.pid, &mut status, libc::WNOHANG) };
+            if r == l.pid {
+                l.status = status;
+                l.done = true;
+                if !(libc::WIFEXITED(status) && libc::WEXITSTATUS(status) == 0) {
+                    crash_seen = true;
+                }
+                continue;
             }
             if r < 0 {
-                status = -1;
-                break;
+                l.status = -1;
+                l.done = true;
+                continue;
             }
+            let mut kill = false;
             if t0.elapsed().as_secs() > wall_limit_s {
-                unsafe {
-                    libc::kill(pid, libc::SIGKILL);
-                    libc::waitpid(pid, &mut status, 0);
+                l.timed_out = true;
+                kill = true;
+            } else if polls % poll_every == 0 {
+                if let Some(c) = cpu_ticks(l.pid) {
+                    if c != l.last_cpu {
+                        l.last_cpu = c;
+                        l.last_change = Instant::now();
+                    } else if l.last_change.elapsed().as_millis() as u64 >= stall_ms {
+                        l.stalled = true;
+                        kill = true;
+                    }
                 }
-                timed_out = true;
-                break;
             }
-            std::thread::sleep(std::time::Duration::from_millis(5));
+            if kill {
+                unsafe {
+                    libc::kill(l.pid, libc::SIGKILL);
+                    libc::waitpid(l.pid, &mut status, 0);
+                }
+                l.status = status;
+                l.done = true;
+                crash_seen = true;
+            }
         }
+        std::thread::sleep(std::time::Duration::from_millis(5));
+    }
+    let mut ends = Vec::new();
+    for l in live {
+        let (w, status, timed_out, out_path, cur_path) = (l.w, l.status, l.timed_out, l.out_path, l.cur_path);
         let read_cur = || std::fs::read(&cur_path).ok().and_then(|t| serde_json::from_slice::<Case>(&t).ok());
-        let exited_ok = !timed_out && status != -1 && libc::WIFEXITED(status) && libc::WEXITSTATUS(status) == 0;
+        let exited_ok = !timed_out && !l.stalled && status != -1 && libc::WIFEXITED(status) && libc::WEXITSTATUS(status) == 0;
         if exited_ok {
             match std::fs::read(&out_path).ok().and_then(|t| serde_json::from_slice::<Vec<AccOut>>(&t).ok()) {
                 Some(v) => ends.push(WorkerEnd::Done(v)),
                 None => ends.push(WorkerEnd::Crashed(w, "harness: worker result unreadable".into(), None)),
             }
         } else {
-            let what = if timed_out {
+            let what = if l.collateral {
+                "harness-collateral: stopped because another worker died".to_string()
+            } else if l.stalled {
+                format!("stalled: blocked without consuming CPU for {} ms (deadlock)", stall_ms)
+            } else if timed_out {
                 format!("watchdog: no result after {} s wall clock (inconclusive)", wall_limit_s)
             } else if status != -1 && libc::WIFSIGNALED(status) {
                 let sig = libc::WTERMSIG(status);
@@ -606,7 +695,7 @@ pub fn run_sub(spec_id: &str, sub: &Sub, tier: Tier, seed: u64, threads: usize, 
                 let a = gen_worker(spec_id, sub.name, decode, &run_tracked, per, *max_bytes, seed, w, known.clone());
                 vec![AccOut::of(w, a)]
             };
-            fork_workers(threads, cpu, wall, track, &f)
+            fork_workers_opt(threads, cpu, wall, track, 10_000, track, &f)
         }
         SubKind::Exh { shards, shard } => {
             let n = if tier == Tier::Quick { shards.0 } else { shards.1 };
@@ -640,17 +729,21 @@ pub fn run_sub(spec_id: &str, sub: &Sub, tier: Tier, seed: u64, threads: usize, 
                 if what.starts_with("harness") || what.starts_with("watchdog") {
                     acc.stats.exclude(&format!("worker {}: {} (harness)", w, what));
                 } else if spec_id == "C01" {
-                    // abort / stack overflow / CPU limit inside memterm: attribute to the input
+                    // abort / stack overflow / CPU limit / deadlock inside memterm: attribute to
+                    // the input the worker was running, re-run alone, shrink in isolation
+                    if acc.failure.is_some() {
+                        continue;
+                    }
                     match cur {
                         Some(case) => {
-                            let verdict = crash_verdict(&case, &sub.replay, &what);
-                            match verdict {
-                                Some(f) => {
-                                    if acc.failure.is_none() {
-                                        acc.failure = Some((case, f));
-                                    }
-                                }
-                                None => acc.stats.exclude(&format!("worker {}: {} did not reproduce on the single case (harness)", w, what)),
+                            // C01's replay runner is already the isolated one
+                            let iso = sub.replay.clone();
+                            let res = iso(&case);
+                            if res.fails.iter().any(|f| f.property == "C01") {
+                                let (c2, f2) = shrink_case_budget(&case, &iso, "C01", &known, 120);
+                                acc.failure = Some((c2, f2));
+                            } else {
+                                acc.stats.exclude(&format!("worker {}: {} did not reproduce on the single case (harness)", w, what));
                             }
                         }
                         None => acc.stats.exclude(&format!("worker {}: {} with no current case (harness)", w, what)),
@@ -690,7 +783,57 @@ pub fn run_sub(spec_id: &str, sub: &Sub, tier: Tier, seed: u64, threads: usize, 
     acc
 }
 
+/// Wrap a runner so that every case runs alone in a forked child: aborts, stack overflows,
+/// CPU-bound hangs (20 s CPU) and deadlocks (2 s without CPU progress) become failures.
+pub fn isolated(run: RunFn) -> RunFn {
+    Arc::new(move |case: &Case| {
+        let case2 = case.clone();
+        let run2 = run.clone();
+        let f = move |_w: usize| -> Vec<AccOut> {
+            let res = run2(&case2);
+            vec![AccOut { index: 0, stats: res.stats, failure: res.fails.into_iter().next().map(|f| (case2.clone(), f)), known_hits: BTreeMap::new() }]
+        };
+        let mut stats = Stats::default();
+        let mut fails = Vec::new();
+        for e in fork_workers_opt(1, 20, 120, false, 2_000, false, &f) {
+            match e {
+                WorkerEnd::Done(v) => {
+                    for o in v {
+                        stats.merge(o.stats);
+                        if let Some((_, f)) = o.failure {
+                            fails.push(f);
+                        }
+                    }
+                }
+                WorkerEnd::Crashed(_, what, _) => {
+                    if what.starts_with("harness") || what.starts_with("watchdog") {
+                        stats.exclude(&format!("isolated run: {} (harness)", what));
+                    } else {
+                        let kind = if what.contains("SIGXCPU") {
+                            "hang"
+                        } else if what.starts_with("stalled") {
+                            "deadlock"
+                        } else {
+                            "abort"
+                        };
+                        fails.push(Failure {
+                            property: "C01".into(),
+                            kind: kind.into(),
+                            step: case.ops.len().saturating_sub(1),
+                            op: case.ops.last().map(crate::ops::pretty_op).unwrap_or_default(),
+                            detail: format!("processing this input does not return normally: {}", what),
+                            sig: format!("C01:{}", kind),
+                        });
+                    }
+                }
+            }
+        }
+        CaseResult { fails, stats }
+    })
+}
+
 /// Re-run a single case alone in a child under a 60 s CPU limit: does it still die?
+#[allow(dead_code)]
 fn crash_verdict(case: &Case, run: &RunFn, what: &str) -> Option<Failure> {
     let case2 = case.clone();
     let run2 = run.clone();
@@ -709,7 +852,13 @@ fn crash_verdict(case: &Case, run: &RunFn, what: &str) -> Option<Failure> {
                 if again.starts_with("harness") || again.starts_with("watchdog") {
                     return None;
                 }
-                let kind = if again.contains("SIGXCPU") { "hang" } else { "abort" };
+                let kind = if again.contains("SIGXCPU") {
+                    "hang"
+                } else if again.starts_with("stalled") {
+                    "deadlock"
+                } else {
+                    "abort"
+                };
                 return Some(Failure {
                     property: "C01".into(),
                     kind: kind.into(),
